@@ -116,3 +116,45 @@ Theorem C18_json_scripts_same_data : forall (pf : bytes -> option Z) k sc1 sc2 s
   exists l, JV.jdec_run pf fuel k (JV.jreader_dec sc1) s = Ok l /\ JV.jdec_run pf fuel k (JV.jreader_dec sc2) s = Ok l.
 Proof. exact JV.C18_json_scripts_same_data. Qed.
 Print Assumptions C18_json_scripts_same_data.
+
+(* One value per Next, all three decoders.  JSON: the tree of a nil Next is well-formed.
+   UBJSON: a nil Next delivered the flattening of exactly one tree (at least one event, nothing
+   of the following value) and consumed input; two well-behaved scripts with the same data
+   give the same events and verdict for EACH of the first k calls; and for a stream of k
+   reference-valid documents over any well-behaved reader script, k calls deliver exactly the
+   k values' streams and the next call reports io.EOF (under the guard of finding F2). *)
+From SF Require Json.AcceptedProofs Ubjson.ReuseProofs.
+Module UR := SF.Ubjson.ReuseProofs.
+Theorem C18_json_next_wellformed : forall (pf : bytes -> option Z),
+  (forall l z, pf l = Some z -> in_u 64 z = true) ->
+  forall fuel d s d' s',
+  JV.W (JP.jd_p d) -> JP.jp_cur (JP.jd_p d) = JP.jStart -> JV.jscript_ok (JP.jd_script d) ->
+  all_bytes (JP.jd_buf d) = true -> Forall (fun x => all_bytes (fst x) = true) (JP.jd_script d) ->
+  JP.jdec_next fuel pf d s = Ok (d', s', JP.jpnil) ->
+  exists t, s' = JV.s_add s (flatten t) /\ wf_tree t = true.
+Proof. exact SF.Json.AcceptedProofs.C18_json_next_wf. Qed.
+Print Assumptions C18_json_next_wellformed.
+
+Theorem C18_ubj_next_one_value : forall fuel d s,
+  UR.dtop d -> UV.udec_good d -> (UV.umeasure d < fuel)%nat ->
+  exists d' s' e, UP.udec_next fuel d s = Ok (d', s', e) /\
+    (e = UP.unilE -> exists t, s' = UV.s_add s (flatten t) /\ flatten t <> [] /\ UR.dtop d' /\ UV.udec_good d' /\
+                            (length (UV.urem d') < length (UV.urem d))%nat).
+Proof. exact UR.C18_ubj_next_one_value. Qed.
+Print Assumptions C18_ubj_next_one_value.
+
+Theorem C18_ubj_script_independent : forall k f1 f2 d1 d2 s l1 l2,
+  UR.pinv (UP.ud_p d1) -> UV.uscript_okb (UP.ud_script d1) = true -> UV.uscript_okb (UP.ud_script d2) = true ->
+  UP.ud_p d1 = UP.ud_p d2 -> UV.urem d1 = UV.urem d2 ->
+  UR.udec_run f1 k d1 s = Ok l1 -> UR.udec_run f2 k d2 s = Ok l2 -> l1 = l2.
+Proof. exact UR.C18_ubj_script_independent. Qed.
+Print Assumptions C18_ubj_script_independent.
+
+Theorem C18_ubj_reader_stream : forall docs sc fuel s,
+  Forall UR.doc_ok docs -> UV.uscript_okb sc = true -> concat (map fst sc) = concat docs ->
+  SF.Ubjson.ParseSafety.no_zero_typed (concat docs) = true -> s_fail s = None ->
+  (2 * length sc + 1 <= fuel)%nat ->
+  exists ts, Forall2 UR.doc_tree docs ts /\
+    UR.udec_run fuel (S (length docs)) (UV.ureader_dec sc) s = Ok (UR.uexpect (s_log s) ts).
+Proof. exact UR.C18_ubj_reader_stream. Qed.
+Print Assumptions C18_ubj_reader_stream.
